@@ -2,7 +2,7 @@
  * C07 harness, parser units: the real functions of the working tree on the same lines as `sqfsmodel c07`.
  * Every input lives in an exact-size heap object so that ASan sees any access outside it.
  *
- *   num <fx> <bufhex> <digits>                 read_number
+ *   num <bufhex> <digits>                      read_number
  *   puint <base> <len|-1> <wantdiff> <vmin> <vmax> <strhex>   parse_uint / parse_uint_oct
  *   pint <len|-1> <wantdiff> <strhex>          parse_int
  *   hex <outsz> <inhex>                        hex_decode
@@ -10,9 +10,19 @@
  *   split <sephex> <len|-1> <linehex>          split_line
  *   dfn <linehex>                              decode_filename (static, sort_by_file.c)
  *   xdec <valuehex>                            decode (static, filemap_xattr.c)
- *   pax <fx> <recordhex>                       read_pax_header
+ *   pax <recordhex>                            read_pax_header
  *   spnew <record_size> <streamhex>            read_gnu_new_sparse
- *   spold <fx> <headerhex> <streamhex>         read_gnu_old_sparse
+ *   spold <headerhex> <streamhex>              read_gnu_old_sparse
+ *   rh <streamhex>                             read_header (the whole loop: extension records, decode_header, sparse maps)
+ *   rhmax <streamhex>                          monitor: the largest single allocation made inside the read_header calls
+ *                                              of `rh` on this stream (ASan's malloc hook) — answers `max <bytes>`
+ *   gl <B> <flags> <content>...                istream_get_line until end of input, on the real buffered file
+ *                                              istream (sqfs_istream_open_file) over a temporary file holding the
+ *                                              content; content tokens: h<hex> literal bytes, r<count>x<hh> a run.
+ *                                              <B> is for the model only (the real stream has its own BUFSZ).
+ *
+ * A failure is answered `fail <class>`: the functions only return -1/NULL, the class is read off the diagnostic
+ * they print (captured from stderr), 0 = no diagnostic at all, 9 = an unexpected one.
  */
 #include "config.h"
 #include "bin/gensquashfs/src/sort_by_file.c"
@@ -21,8 +31,106 @@
 #include "util/parse.h"
 #include "hexio.h"
 #include <inttypes.h>
+#include <sys/mman.h>
+#include <unistd.h>
 
 static int errcode(int ret) { return ret < 0 ? -ret : ret; }
+
+/* ---- capture of the diagnostics the real functions print ---- */
+static FILE *cap_keep, *cap_fp;
+static char *cap_buf;
+static size_t cap_len;
+
+static void cap_begin(void)
+{
+	cap_buf = NULL; cap_len = 0;
+	cap_fp = open_memstream(&cap_buf, &cap_len);
+	if (cap_fp == NULL) abort();
+	cap_keep = stderr;
+	stderr = cap_fp;
+}
+
+/* returns the captured text (valid until the next cap_begin) */
+static const char *cap_end(void)
+{
+	static char text[4096];
+	stderr = cap_keep;
+	fclose(cap_fp);
+	snprintf(text, sizeof(text), "%s", cap_buf ? cap_buf : "");
+	free(cap_buf);
+	return text;
+}
+
+struct diag { const char *needle; int cls; };
+
+static int classify(const char *text, const struct diag *tab)
+{
+	if (text[0] == '\0') return 0;
+	for (; tab->needle != NULL; ++tab)
+		if (strstr(text, tab->needle) != NULL) return tab->cls;
+	return 9;
+}
+
+static const struct diag diag_num[] = { { "numeric overflow parsing tar header", 1 }, { NULL, 0 } };
+static const struct diag diag_pax[] = {
+	{ "Found a malformed PAX header", 1 }, { "Numeric overflow in PAX header", 2 },
+	{ "Malformed decimal value in pax header", 3 }, { "malformed GNU pax sparse file record", 4 }, { NULL, 0 } };
+static const struct diag diag_spnew[] = { { "Malformed GNU 1.0 style sparse file map", 1 }, { NULL, 0 } };
+static const struct diag diag_spold[] = {
+	{ "numeric overflow parsing tar header", 1 }, { "unexpected end-of-file", 2 }, { NULL, 0 } };
+static const struct diag diag_dfn[] = {
+	{ "Unmatched", 1 }, { "Unknown escape sequence", 2 }, { "Unexpected characters after", 3 },
+	{ "Malformed filename", 4 }, { NULL, 0 } };
+static const struct diag diag_rh[] = {
+	{ "invalid tar header checksum", 3 }, { "unexpected end of input inside a tar header", 1 },
+	{ "input is not a ustar tar archive", 2 }, { "rejecting GNU symlink header", 4 }, { "rejecting GNU long path header", 5 },
+	{ "rejecting PAX header", 6 }, { "sparse file map does not fit", 7 }, { "Reading tar record: unexpected end-of-file", 9 },
+	{ "Found a malformed PAX header", 11 }, { "Numeric overflow in PAX header", 12 },
+	{ "Malformed decimal value in pax header", 13 }, { "malformed GNU pax sparse file record", 14 },
+	{ "Malformed GNU 1.0 style sparse file map", 15 }, { "reading GNU sparse header: unexpected end-of-file", 16 },
+	{ "skipping tar padding", 17 }, { "skipping padding", 18 }, { "numeric overflow parsing tar header", 8 }, { NULL, 0 } };
+static const struct diag diag_xdec[] = { { "bad input encoding", 1 }, { NULL, 0 } };
+
+/* ---- rhmax: allocation sizes, observed through the sanitizer's allocator hooks ---- */
+int __sanitizer_install_malloc_and_free_hooks(void (*malloc_hook)(const volatile void *, size_t),
+					      void (*free_hook)(const volatile void *));
+static int hook_on;
+static size_t hook_max;
+static void on_malloc(const volatile void *p, size_t n) { (void)p; if (hook_on && n > hook_max) hook_max = n; }
+static void on_free(const volatile void *p) { (void)p; }
+
+/* ---- gl: the content of a text input, run-length coded ---- */
+static unsigned char *expand_content(char **toks, int n, size_t *out_len)
+{
+	size_t cap = 1 << 16, len = 0;
+	unsigned char *buf = malloc(cap);
+	int i;
+	if (!buf) abort();
+	for (i = 0; i < n; ++i) {
+		const char *t = toks[i];
+		size_t add = 0;
+		if (t[0] == 'h') {
+			unsigned char *lit; long l = hex_decode_tok(t + 1, &lit, 0);
+			if (l < 0) { free(buf); return NULL; }
+			add = (size_t)l;
+			while (len + add + 1 > cap) { cap *= 2; buf = realloc(buf, cap); if (!buf) abort(); }
+			memcpy(buf + len, lit, add);
+			free(lit);
+		} else if (t[0] == 'r') {
+			char *x = NULL; unsigned long cnt = strtoul(t + 1, &x, 10);
+			int hi, lo;
+			if (x == t + 1 || *x != 'x' || strlen(x) != 3 || cnt > (64UL << 20)) { free(buf); return NULL; }
+			hi = hexval(x[1]); lo = hexval(x[2]);
+			if (hi < 0 || lo < 0) { free(buf); return NULL; }
+			add = cnt;
+			while (len + add + 1 > cap) { cap *= 2; buf = realloc(buf, cap); if (!buf) abort(); }
+			memset(buf + len, hi * 16 + lo, add);
+		} else { free(buf); return NULL; }
+		len += add;
+	}
+	*out_len = len;
+	return buf;
+}
 
 static void show_sparse(const sparse_map_t *s)
 {
@@ -52,19 +160,24 @@ int main(void)
 {
 	static char line[1 << 22];
 	FILE *null = fopen("/dev/null", "w");
+	int hooks = __sanitizer_install_malloc_and_free_hooks(on_malloc, on_free);
 	(void)null;
 
 	while (fgets(line, sizeof(line), stdin)) {
 		char *save = NULL, *op = strtok_r(line, " \n", &save);
-		char *a[8]; int n = 0;
-		while (n < 8 && (a[n] = strtok_r(NULL, " \n", &save)) != NULL) ++n;
+		static char *a[4096]; int n = 0;
+		while (n < 4096 && (a[n] = strtok_r(NULL, " \n", &save)) != NULL) ++n;
+		if (n == 4096 && strtok_r(NULL, " \n", &save) != NULL) { puts("bad-op"); fflush(stdout); continue; }
 		if (!op) { puts("bad-op"); continue; }
 
-		if (!strcmp(op, "num") && n == 3) {
-			unsigned char *buf; long len = hex_decode_tok(a[1], &buf, 0);
-			sqfs_u64 out = 0; int digits = atoi(a[2]);
+		if (!strcmp(op, "num") && n == 2) {
+			unsigned char *buf; long len = hex_decode_tok(a[0], &buf, 0);
+			sqfs_u64 out = 0; int digits = atoi(a[1]), ret;
 			if (len < 0) { puts("bad-op"); continue; }
-			if (read_number((char *)buf, digits, &out)) puts("fail 1"); else printf("ok %" PRIu64 "\n", (uint64_t)out);
+			cap_begin();
+			ret = read_number((char *)buf, digits, &out);
+			{ const char *d = cap_end();
+			  if (ret) printf("fail %d\n", classify(d, diag_num)); else printf("ok %" PRIu64 "\n", (uint64_t)out); }
 			free(buf);
 		} else if (!strcmp(op, "puint") && n == 6) {
 			unsigned char *s; long len = hex_decode_tok(a[5], &s, 1);
@@ -122,37 +235,36 @@ int main(void)
 			free(sep); free(s);
 		} else if (!strcmp(op, "dfn") && n == 1) {
 			unsigned char *s; long len = hex_decode_tok(a[0], &s, 1);
-			FILE *keep = stderr; int ret;
+			int ret;
 			if (len < 0 || memchr(s, 0, (size_t)len)) { puts("bad-op"); continue; }
-			stderr = null;
+			cap_begin();
 			ret = decode_filename("f", 1, (char *)s);
-			stderr = keep;
-			if (ret) puts("fail"); else { fputs("ok ", stdout); hex_print(stdout, s, strlen((char *)s)); putchar('\n'); }
+			{ const char *d = cap_end(); if (ret) printf("fail %d\n", classify(d, diag_dfn)); }
+			if (!ret) { fputs("ok ", stdout); hex_print(stdout, s, strlen((char *)s)); putchar('\n'); }
 			free(s);
 		} else if (!strcmp(op, "xdec") && n == 1) {
 			unsigned char *s, *out; long len = hex_decode_tok(a[0], &s, 1);
-			size_t size; FILE *keep = stderr;
+			size_t size;
 			if (len < 0 || memchr(s, 0, (size_t)len)) { puts("bad-op"); continue; }
 			size = (size_t)len;
-			stderr = null;
+			cap_begin();
 			out = decode("f", 1, (char *)s, &size);
-			stderr = keep;
-			if (out == NULL) puts("fail 1"); else { fputs("ok ", stdout); hex_print(stdout, out, size); putchar('\n'); free(out); }
+			{ const char *d = cap_end(); if (out == NULL) printf("fail %d\n", classify(d, diag_xdec)); }
+			if (out != NULL) { fputs("ok ", stdout); hex_print(stdout, out, size); putchar('\n'); free(out); }
 			free(s);
-		} else if (!strcmp(op, "pax") && n == 2) {
-			unsigned char *rec, *padded; long len = hex_decode_tok(a[1], &rec, 0);
-			tar_header_decoded_t out; unsigned int flags = 0; sqfs_istream_t *fp; FILE *keep = stderr; int ret;
+		} else if (!strcmp(op, "pax") && n == 1) {
+			unsigned char *rec, *padded; long len = hex_decode_tok(a[0], &rec, 0);
+			tar_header_decoded_t out; unsigned int flags = 0; sqfs_istream_t *fp; int ret;
 			size_t plen;
 			if (len < 1) { puts("bad-op"); continue; }
 			plen = ((size_t)len + 511) / 512 * 512;
 			padded = calloc(1, plen); memcpy(padded, rec, (size_t)len);
 			fp = mem_stream(padded, plen);
 			memset(&out, 0, sizeof(out));
-			stderr = null;
+			cap_begin();
 			ret = read_pax_header(fp, (sqfs_u64)len, &flags, &out);
-			stderr = keep;
-			if (ret) puts("fail");
-			else {
+			{ const char *d = cap_end(); if (ret) printf("fail %d\n", classify(d, diag_pax)); }
+			if (!ret) {
 				sqfs_xattr_t *x;
 				printf("ok flags=%u uid=%" PRIu64 " gid=%" PRIu64 " size=%" PRIu64 " actual=%" PRIu64 " mtime=%" PRId64 " name=",
 				       flags, (uint64_t)out.uid, (uint64_t)out.gid, (uint64_t)out.record_size, (uint64_t)out.actual_size, (int64_t)out.mtime);
@@ -173,30 +285,134 @@ int main(void)
 			sqfs_drop(fp); free(rec); free(padded);
 		} else if (!strcmp(op, "spnew") && n == 2) {
 			unsigned char *st; long len = hex_decode_tok(a[1], &st, 0);
-			tar_header_decoded_t out; sqfs_istream_t *fp; sparse_map_t *m; FILE *keep = stderr;
+			tar_header_decoded_t out; sqfs_istream_t *fp; sparse_map_t *m;
 			if (len < 0) { puts("bad-op"); continue; }
 			memset(&out, 0, sizeof(out));
 			out.record_size = strtoull(a[0], NULL, 10);
 			fp = mem_stream(st, (size_t)len);
-			stderr = null;
+			cap_begin();
 			m = read_gnu_new_sparse(fp, &out);
-			stderr = keep;
-			if (m == NULL) puts("fail");
-			else { printf("ok %" PRIu64 " %zu", (uint64_t)out.record_size, drain(fp)); show_sparse(m); putchar('\n'); free_sparse_list(m); }
+			{ const char *d = cap_end(); if (m == NULL) printf("fail %d\n", classify(d, diag_spnew)); }
+			if (m != NULL) { printf("ok %" PRIu64 " %zu", (uint64_t)out.record_size, drain(fp)); show_sparse(m); putchar('\n'); free_sparse_list(m); }
 			sqfs_drop(fp); free(st);
-		} else if (!strcmp(op, "spold") && n == 3) {
-			unsigned char *hd, *st; long hl = hex_decode_tok(a[1], &hd, 0), len;
-			sqfs_istream_t *fp; sparse_map_t *m; FILE *keep = stderr;
+		} else if (!strcmp(op, "spold") && n == 2) {
+			unsigned char *hd, *st; long hl = hex_decode_tok(a[0], &hd, 0), len;
+			sqfs_istream_t *fp; sparse_map_t *m;
 			if (hl != 512) { puts("bad-op"); continue; }
-			len = hex_decode_tok(a[2], &st, 0);
+			len = hex_decode_tok(a[1], &st, 0);
 			if (len < 0) { puts("bad-op"); free(hd); continue; }
 			fp = mem_stream(st, (size_t)len);
-			stderr = null;
+			cap_begin();
 			m = read_gnu_old_sparse(fp, (tar_header_t *)hd);
-			stderr = keep;
-			if (m == NULL) puts("fail");
-			else { printf("ok %zu", drain(fp)); show_sparse(m); putchar('\n'); free_sparse_list(m); }
+			{ const char *d = cap_end(); if (m == NULL) printf("fail %d\n", classify(d, diag_spold)); }
+			if (m != NULL) { printf("ok %zu", drain(fp)); show_sparse(m); putchar('\n'); free_sparse_list(m); }
 			sqfs_drop(fp); free(hd); free(st);
+		} else if (!strcmp(op, "rh") && n == 1) {
+			/* every member of the stream: read_header, then skip the record data and its padding the way the tar
+			   iterator does (at most 64 members); results joined by " ; " */
+			unsigned char *st; long len = hex_decode_tok(a[0], &st, 0);
+			size_t off = 0; int k;
+			if (len < 0) { puts("bad-op"); continue; }
+			for (k = 0; k < 64; ++k) {
+				tar_header_decoded_t out; int ret; size_t rest = 0;
+				sqfs_istream_t *fp = mem_stream(st + off, (size_t)len - off);
+				if (k > 0) fputs(" ; ", stdout);
+				cap_begin();
+				ret = read_header(fp, &out);
+				{ const char *d = cap_end(); if (ret < 0) printf("fail %d", classify(d, diag_rh)); }
+				if (ret > 0) fputs("eof", stdout);
+				if (ret == 0) {
+					sqfs_xattr_t *x; const sparse_map_t *sp; int first = 1;
+					sqfs_u64 skip = out.record_size;
+					fputs("ok name=", stdout);
+					hex_print(stdout, (unsigned char *)out.name, strlen(out.name));
+					fputs(" link=", stdout);
+					if (out.link_target) hex_print(stdout, (unsigned char *)out.link_target, strlen(out.link_target)); else putchar('~');
+					printf(" mode=%o uid=%" PRIu64 " gid=%" PRIu64 " mtime=%" PRId64 " size=%" PRIu64 " actual=%" PRIu64 " sparse=[",
+					       (unsigned)out.mode, (uint64_t)out.uid, (uint64_t)out.gid, (int64_t)out.mtime,
+					       (uint64_t)out.record_size, (uint64_t)out.actual_size);
+					for (sp = out.sparse; sp; sp = sp->next) { printf("%s%" PRIu64 ":%" PRIu64, first ? "" : " ", (uint64_t)sp->offset, (uint64_t)sp->count); first = 0; }
+					fputs("] xattr=[", stdout);
+					for (x = out.xattr; x != NULL; x = x->next) {
+						if (x != out.xattr) putchar(' ');
+						hex_print(stdout, (unsigned char *)x->key, strlen(x->key)); putchar('=');
+						hex_print(stdout, x->value, x->value_len);
+					}
+					rest = drain(fp);
+					printf("] unknown=%d hard=%d rest=%zu", out.unknown_record ? 1 : 0, out.is_hard_link ? 1 : 0, rest);
+					clear_header(&out);
+					sqfs_drop(fp);
+					if (skip > (sqfs_u64)rest) { fputs(" ; skipfail", stdout); break; }
+					if (skip % 512) skip += 512 - skip % 512;
+					if (skip > (sqfs_u64)rest) { fputs(" ; skipfail", stdout); break; }
+					off = (size_t)len - rest + (size_t)skip;
+					continue;
+				}
+				sqfs_drop(fp);
+				break;
+			}
+			if (k == 64) fputs(" ; more", stdout);
+			putchar('\n');
+			free(st);
+		} else if (!strcmp(op, "rhmax") && n == 1) {
+			unsigned char *st; long len = hex_decode_tok(a[0], &st, 0);
+			size_t off = 0; int k;
+			if (len < 0 || !hooks) { puts(hooks ? "bad-op" : "no-hooks"); continue; }
+			hook_max = 0;
+			for (k = 0; k < 64; ++k) {
+				tar_header_decoded_t out; int ret; size_t rest; sqfs_u64 skip;
+				sqfs_istream_t *fp = mem_stream(st + off, (size_t)len - off);
+				cap_begin();
+				hook_on = 1;
+				ret = read_header(fp, &out);
+				hook_on = 0;
+				(void)cap_end();
+				if (ret != 0) { sqfs_drop(fp); break; }
+				skip = out.record_size;
+				rest = drain(fp);
+				clear_header(&out);
+				sqfs_drop(fp);
+				if (skip > (sqfs_u64)rest) break;
+				if (skip % 512) skip += 512 - skip % 512;
+				if (skip > (sqfs_u64)rest) break;
+				off = (size_t)len - rest + (size_t)skip;
+			}
+			printf("max %zu\n", hook_max);
+			free(st);
+		} else if (!strcmp(op, "gl") && n >= 2) {
+			/* the reading loop of fstree_from_file_stream / xattr_open_map_file / sort file: get a line, use it,
+			   ++line_num, until istream_get_line says end of input */
+			size_t clen = 0, line_num = 1, count = 0, total = 0;
+			unsigned char *content = expand_content(a + 2, n - 2, &clen);
+			int flags = atoi(a[1]), ret = 0;
+			sqfs_u64 h = 1469598103934665603ULL;
+			char path[64];
+			sqfs_istream_t *fp = NULL;
+			int fd;
+			if (content == NULL) { puts("bad-op"); fflush(stdout); continue; }
+			/* an anonymous in-memory file, opened by name through the real sqfs_istream_open_file */
+			fd = memfd_create("h_c07_gl", 0);
+			if (fd < 0 || write(fd, content, clen) != (ssize_t)clen) { puts("tmpfile-failed"); fflush(stdout); free(content); if (fd >= 0) close(fd); continue; }
+			snprintf(path, sizeof(path), "/proc/self/fd/%d", fd);
+			ret = sqfs_istream_open_file(&fp, path, 0);
+			close(fd);
+			if (ret) { printf("open-failed %d\n", ret); fflush(stdout); free(content); continue; }
+			for (;;) {
+				char *ln = NULL; size_t i, l; char num[32];
+				ret = istream_get_line(fp, &ln, &line_num, flags);
+				if (ret != 0) break;
+				l = strlen(ln);
+				for (i = 0; i < l; ++i) h = (h ^ (unsigned char)ln[i]) * 1099511628211ULL;
+				h = (h ^ 10) * 1099511628211ULL;
+				snprintf(num, sizeof(num), "%zu", line_num);
+				for (i = 0; num[i]; ++i) h = (h ^ (unsigned char)num[i]) * 1099511628211ULL;
+				h = (h ^ 10) * 1099511628211ULL;
+				total += l; ++count; ++line_num;
+				free(ln);
+			}
+			if (ret < 0) printf("fail %d\n", errcode(ret));
+			else printf("ok %zu %zu %zu %016llx\n", count, line_num, total, (unsigned long long)h);
+			sqfs_drop(fp); free(content);
 		} else puts("bad-op");
 		fflush(stdout);
 	}
